@@ -4,7 +4,7 @@ CONSTANTS
  MaxItems = 2
  MaxLen = 11
  MaxVar = 2
- MaxStr = 2
+ MaxStr = 1
  Linear = FALSE
  Stride = 1
 VIEW View
